@@ -97,6 +97,13 @@ def compare_outputs(res, cfg, b, out, recs, tag):
                     return
                 for row, val in rows.items():
                     if not np.array_equal(arr[row], val):
+                        if arr.dtype.kind in "iub" and np.asarray(val).dtype.kind == "f":
+                            # the array's dtype was fixed from the value at chain 0's INITIAL state (a Python int there)
+                            fail("trace-row:value-truncated-to-dtype-of-initial-state",
+                                 f"trace {key} chain {c} row {row}: {arr[row].tolist()} ({arr.dtype}) but the trace "
+                                 f"function returned {val.tolist()}: the array dtype was taken from the value at chain "
+                                 f"0's initial state and later values are silently truncated")
+                            break
                         fail("trace-row", f"trace {key} chain {c} row {row}: {arr[row].tolist()} but the state after "
                              f"that iteration gives {val.tolist()}")
                         return
